@@ -406,10 +406,25 @@ package device
 
 // ---- axis events
 
+// what the kernel delivers for an axis: a position inside the range the device reports for that axis
+//@ pred envAbs(d *Device, ie *input.InputEvent) :=
+//@   ie != nil && (let info := d.InputDevice.AbsInfos[ext("(*input.DeviceInfo).Event", ie.Source.DeviceInfo, "string")][ie.Event.Code] in
+//@     info.Minimum <= ie.Event.Value && ie.Event.Value <= info.Maximum && info.Maximum > 0)
+
+// controller numbers of every configured cc axis are valid data bytes (what ParseData's store-site assertions guarantee)
+//@ pred cfgRanges(c config.Config) :=
+//@   forall m int, sub string, code evdev.EvCode :: 0 <= m && m < len(c.KeyMappings) && has(c.KeyMappings[m].Analog[sub], code) ==>
+//@     c.KeyMappings[m].Analog[sub][code].CC <= 119 && c.KeyMappings[m].Analog[sub][code].CCNeg <= 119
+
 //@ func (*Device).handleABSEvent
 //@   requires wf(d) && tableOK(d) && ie != nil
+//@   cut load(.DeadzoneAtCenter) [C05,C06] old(envAbs(d, ie)) ==> !isNaN(value) && value >= -1.0 && value <= 1.0 && (!canBeNegative ==> value >= 0.0) && (canBeNegative <==> min < 0)
+//@   cut load(.Deadzones) [C05,C06] old(envAbs(d, ie)) ==> !isNaN(value) && value >= -1.0 && value <= 1.0 && (!canBeNegative ==> value >= 0.0)
+//@   cut load(.FlipAxis) [C05,C06] old(envAbs(d, ie)) ==> isNaN(value) || (value >= -1.0039 && value <= 1.0039 && (!canBeNegative ==> value >= 0.0))
+//@   cut load(.MappingType) [C05,C06] old(envAbs(d, ie)) ==> isNaN(value) || (value >= -1.0039 && value <= 1.0039 && (!canBeNegative ==> value >= -0.0039))
 //@   ensures wf(d) && tableOK(d)
 //@   ensures [C01] old(Inv(d)) ==> Inv(d)
+//@   safety [C05]
 //@   modifies d.keyTracker[_], d.actionTracker[_], d.analogNoteTracker[_], d.lastAnalogValue[_][_], d.ccZeroed[_], d.octave, d.semitone, d.channel, d.mapping, d.ccLearning, out, outLen, sounding, d.externalNoteTracker, heap("map[byte]map[byte]bool"), heap("map[byte]bool")
 
 // ---- event loop
